@@ -1521,9 +1521,16 @@ void IGXMLScanner::scanDocTypeDecl()
                 unsigned int stringId = fGrammarResolver->getStringPool()->addOrFind(srcUsed->getSystemId());
                 const XMLCh* sysIdStr = fGrammarResolver->getStringPool()->getValueForId(stringId);
 
-                fGrammarResolver->orphanGrammar(XMLUni::fgDTDEntityString);
-                ((XMLDTDDescription*) (fGrammar->getGrammarDescription()))->setSystemId(sysIdStr);
-                fGrammarResolver->putGrammar(fGrammar);
+                //  Re-key the grammar by its system id only if it could be taken
+                //  out of the resolver. A locked grammar pool refuses to hand the
+                //  "[dtd]" grammar back; changing its key (the registry's key is a
+                //  pointer into the description) and registering it a second time
+                //  would leave a dangling key and a grammar with two owners.
+                if (fGrammarResolver->orphanGrammar(XMLUni::fgDTDEntityString) == fGrammar)
+                {
+                    ((XMLDTDDescription*) (fGrammar->getGrammarDescription()))->setSystemId(sysIdStr);
+                    fGrammarResolver->putGrammar(fGrammar);
+                }
             }
 
             //  In order to make the processing work consistently, we have to
